@@ -120,11 +120,12 @@ PROPERTIES = {
     },
     "C13": {
         "decided_by": "Proved (termination variants discharged): symbolic_attractor_test main loop (lexicographic variant over set cardinalities), "
-                      "asp_greedy_retained_set_optimization; percolate_space_strict loops are cut at invariants with finite iteration spaces; "
+                      "asp_greedy_retained_set_optimization, the recursion of _update_node_depth (measure nvars - number of fixed variables of the "
+                      "node, decreasing along every edge); percolate_space_strict loops are cut at invariants with finite iteration spaces; "
                       "for-loops over finite collections terminate by construction of the iteration protocol.",
         "bounded": "every public operation under a per-case wall-clock limit and a counted work bound for the simulation rounds",
         "excluded": ["termination of clingo / AEON calls"],
-        "trusted": ["every external call terminates", "recursion of _update_node_depth (well-founded on rank, stated as a precondition, variant not generated)"],
+        "trusted": ["every external call terminates"],
     },
     "C14": {
         "decided_by": "Proved: I-cache (CacheOK relative to the ghost successor signature of each node) is part of the invariant ensured by __init__, "
